@@ -3,7 +3,8 @@
 (* Property monitor (P) for C05 on connections served by the REAL handle() *)
 (* of a worker class from a scripted socket.  One trace = one connection:  *)
 (*   ms, cut  the stream as message descriptors (HttpStream) when it was   *)
-(*            generated from the grammar (oracle = 1), else empty          *)
+(*            generated from the grammar (oracle = 1), else empty, and     *)
+(*   maxapp   how many of the stream's requests may reach the application  *)
 (*   fault    "none" | "recv" | "send": the client reset while the server  *)
 (*            was reading / stopped accepting bytes while it was writing   *)
 (*   ev: {e:"resp", kind:"app"|"error"|"junk"|"partial", status, close: the head says          *)
@@ -26,7 +27,7 @@ T == Traces[tid]
 RECURSIVE LeadingOk(_, _)
 LeadingOk(st, i) == IF i > Len(st) THEN Len(st)
                     ELSE IF st[i].hv = "reject" \/ st[i].hend > T.cut THEN i - 1 ELSE LeadingOk(st, i + 1)
-MaxApp == IF T.oracle = 1 THEN LeadingOk(Strict(T.ms), 1) ELSE 1000
+MaxApp == IF T.oracle = 1 THEN LeadingOk(Strict(T.ms), 1) ELSE T.maxapp
 
 RespVerdict(e) ==
   IF nerr > 0 THEN "SomethingAfterErrorReply"
